@@ -53,15 +53,18 @@ WalkOk ==
     [] OTHER -> TRUE
 NearOk ==
   CASE Ev.op = "nearest" -> IF Dom = {} THEN ~Ev.ok /\ Ev.err = 1
-                            ELSE Ev.ok /\ Ev.rk = FloorOf(Dom, Ev.a) /\ Ev.rv = map[Ev.rk]
+                            ELSE Ev.ok /\ Ev.rk >= 1 /\ Ev.rk = FloorOf(Dom, Ev.a) /\ Ev.rv = map[Ev.rk]    \* a key that was stored (never -1: bytes nobody put)
     [] Ev.op = "next" -> (~Ev.ok /\ mode = "nwalk") => (Len(out) = Cardinality(Dom) /\ Pairs(out) = Dom)
     [] OTHER -> TRUE
 \* ---- contents and structure after the call ----
 StateOk(m) == /\ Ev.size = Cardinality(DOMAIN m) /\ Ev.cnt = Cardinality(DOMAIN m)
               /\ (Ev.hs => InOrderKV(Ev.shape) = SortedKV(m))
               /\ (Ev.full => Ev.ino = SortedKV(m))
+\* a node without a key (NULL name, projected as key 0) has no place in any search order
+RECURSIVE NoKeyless(_)
+NoKeyless(t) == t = Nil \/ (t[1] # 0 /\ NoKeyless(t[6]) /\ NoKeyless(t[7]))
 ValidOk == /\ Ev.chk = 0
-           /\ (Ev.hs => Valid(Ev.shape))
+           /\ (Ev.hs => Valid(Ev.shape) /\ NoKeyless(Ev.shape))
            /\ Ev.h <= 30 /\ Pow2(Ev.h) <= (Ev.cnt + 1) * (Ev.cnt + 1)
            /\ (Ev.op = "get" /\ Ev.cmps >= 0 => Ev.cmps <= 30 /\ Pow2(Ev.cmps) <= (Ev.cnt + 1) * (Ev.cnt + 1))
 \* a call that reports failure must not hand out half of a result (a value copy without its key)
@@ -142,8 +145,13 @@ TNext ==
           /\ IF Why \cap Owned = {} /\ Ev.hs /\ Ev.full /\ Ev.inj = 0
              THEN \* a deviation that belongs to another property: instead of giving up the segment, go on from the table as observed
                   \* (keys the harness cannot identify appear as -1), so that what this run owns is still judged
-                  /\ map' = [k \in {Ev.ino[i][1] : i \in 1..Len(Ev.ino)} |->
-                               Ev.ino[CHOOSE i \in 1..Len(Ev.ino) : Ev.ino[i][1] = k][2]]
+                  \* ... unless the observed table is not a map over keys that were put at all (a key nobody stored, a key twice):
+                  \* then "the current set of keys" can only mean what the calls so far stored, and the ideal map goes on
+                  /\ LET obs == {Ev.ino[i][1] : i \in 1..Len(Ev.ino)} IN
+                     \* (a run that judges the nearest-key search always keeps the ideal map: its property speaks of the keys the calls stored)
+                     map' = IF "nearest" \notin Owned /\ Cardinality(obs) = Len(Ev.ino) /\ \A k \in obs : k >= 1
+                            THEN [k \in obs |-> Ev.ino[CHOOSE i \in 1..Len(Ev.ino) : Ev.ino[i][1] = k][2]]
+                            ELSE IF FailedCleanly THEN map ELSE NewMap
                   /\ tree' = Ev.shape /\ ttid' = Ev.ttid /\ cur' = [tid |-> Ev.ctid, nx |-> Ev.cnx]
                   /\ Ghost /\ UNCHANGED <<skipping, nconf, ncmp>>
              ELSE skipping' = TRUE /\ UNCHANGED <<tree, ttid, cur, out, mode, unfinished, map, nconf, ncmp>>
